@@ -364,7 +364,7 @@ class Layouts:
                     if v_ is None:
                         return Sym("<" + " ".join(ast.unparse(node.body).split())[:50] + ">")
             return v_
-        if isinstance(node, ast.Attribute):
+        if isinstance(node, (ast.Attribute, ast.Subscript)):
             p = this_path(node, {"this", "obj_"})
             if p:
                 return Sym(p)
@@ -488,7 +488,17 @@ class Layouts:
             for a in A:
                 r = self.eval_con(a, env, depth + 1)
                 fields.append((r[1], r[2]) if isinstance(r, tuple) else (None, r))
+            for k in call.keywords:
+                # Struct(name=subcon, ...) declares the same fields as "name" / subcon, in keyword order
+                if k.arg is None:
+                    raise Unknown("Struct(**fields)")
+                fields.append((k.arg, unn(self.eval_con(k.value, env, depth + 1))))
             return Struct(fields)
+        if n == "Renamed":
+            nm = self.const(kw["newname"] if "newname" in kw else A[1], env)
+            if not isinstance(nm, str):
+                raise Unknown("Renamed without a constant name")
+            return ("named", nm, unn(self.eval_con(A[0] if A else kw["subcon"], env, depth + 1)))
         if n == "Padding":
             return Prim(self.const(A[0], env), "pad")
         if n == "Bytes":
@@ -704,8 +714,10 @@ def unn(x):
 
 def this_path(node, roots):
     parts = []
-    while isinstance(node, ast.Attribute):
-        parts.append(node.attr)
+    while isinstance(node, ast.Attribute) or (isinstance(node, ast.Subscript) and isinstance(node.slice, ast.Constant)
+                                              and isinstance(node.slice.value, str) and node.slice.value.isidentifier()):
+        # this["a"]["b"] is this.a.b
+        parts.append(node.attr if isinstance(node, ast.Attribute) else node.slice.value)
         node = node.value
     if isinstance(node, ast.Name) and node.id in roots and parts:
         return ".".join(reversed(parts))
@@ -856,6 +868,17 @@ class Describer:
                     kws = []
                     if cur.node is not None and isinstance(cur.node, ast.Call):
                         kws = [(k.arg, k.value) for k in cur.node.keywords if k.arg]
+                        for k in cur.node.keywords:
+                            if k.arg is None and mod is not None:
+                                # f(**{name: value, ...}) with a constant table: the same keywords spelled out
+                                try:
+                                    tbl = self.folder.ev(k.value, mod)
+                                except Exception:
+                                    tbl = None
+                                if isinstance(tbl, dict) and all(isinstance(x, str) for x in tbl):
+                                    kws += [(x, _lit(v)) for x, v in tbl.items()]
+                                else:
+                                    kws.append(("**", k.value))
                     # keyword spelling of the library's positional parameters: ExprAdapter(subcon, decoder=f, encoder=g) is ExprAdapter(subcon, f, g)
                     sig = _CONSTRUCT_SIGS.get(cur.tag)
                     if sig and kws:
@@ -908,16 +931,23 @@ class Describer:
                 ann.append(f"encoding[{cur.extra}]")
             elif isinstance(cur, Dyn) and cur.tag == "Switch" and cur.node is not None:
                 mod = cur.env.mod
-                key = self.canon(cur.node.args[0], mod)
+                kw_ = {k.arg: k.value for k in cur.node.keywords if k.arg}
+                key = self.canon(cur.node.args[0] if cur.node.args else kw_.get("keyfunc"), mod)
                 cases = []
-                d = cur.node.args[1]
+                d = cur.node.args[1] if len(cur.node.args) > 1 else kw_.get("cases")
+                denv = cur.env
+                if isinstance(d, ast.Name):
+                    # a case table bound to a module-level name
+                    r_ = self.prog.resolve(mod, d.id)
+                    if r_ and r_[0] == "assign" and isinstance(r_[1], ast.Dict):
+                        d, denv = r_[1], Env(r_[2])
                 if isinstance(d, ast.Dict):
                     for k, v in zip(d.keys, d.values):
                         try:
-                            vl = unn(self.L.eval_con(v, cur.env)).desc()
+                            vl = unn(self.L.eval_con(v, denv)).desc()
                         except Unknown:
                             vl = "?"
-                        cases.append(f"{self.canon(k, mod)} -> {vl}")
+                        cases.append(f"{self.canon(k, denv.mod)} -> {vl}")
                 ann.append(f"Switch[{key}: " + "; ".join(cases) + "]")
             elif isinstance(cur, Dyn) and cur.tag == "Bytes" and cur.node is not None:
                 ann.append(f"Bytes[{self.canon(cur.node.args[0], cur.env.mod)}]")
